@@ -90,6 +90,16 @@ def _values(rng, shape, dtype):
     if dtype == "complex":
         return ig.rand_float_values(rng, shape, "normal") + 1j * ig.rand_float_values(
             rng, shape, "decades")
+    if dtype == "complex64":
+        return (rng.normal(size=shape) + 1j * rng.normal(size=shape)).astype(np.complex64)
+    if dtype == "float32":
+        return (rng.normal(size=shape) * 10.0 ** rng.uniform(-6, 6)).astype(np.float32)
+    if dtype == "bool":
+        return rng.random(shape) < 0.5
+    if dtype == "int32":
+        return rng.integers(-2**31, 2**31 - 1, shape).astype(np.int32)
+    if dtype == "bigint":  # whole numbers that a float64 cannot hold
+        return rng.integers(2**53, 2**62, shape) * rng.choice([-1, 1], shape) + 1
     return rng.integers(-1000, 1000, shape)
 
 
@@ -143,7 +153,9 @@ def compare(ctx, f, r, exp, what):
     elif arr.dtype.kind == "f":
         okv = ra.dtype == arr.dtype and ig.bits_equal(ra, arr)
     else:
-        okv = (not np.iscomplexobj(ra)) and ra.shape == arr.shape and np.array_equal(ra, arr)
+        # integer and Boolean values: the same numbers in the same representation ("values
+        # bit-identical"; 2**53 + 1 is not a float64)
+        okv = ra.dtype == arr.dtype and ra.shape == arr.shape and np.array_equal(ra, arr)
     ctx.check("C10.roundtrip.values", okv, got_dtype=str(ra.dtype), expected_dtype=str(arr.dtype),
               maxdiff=None if okv else _md(ra, arr), **what)
     ctx.check("C10.roundtrip.valid",
@@ -274,6 +286,12 @@ def random_field(ctx, tmp):
     bc = _rand_bc(rng, spec.dim_names)
     boxes, regions = gen.rand_subregions(rng, spec, kmax=3)
     region = spec.region(tolerance_factor=tol)
+    if rng.random() < 0.2:
+        # dimension names and units as numpy strings (accepted by the setters)
+        p1, p2 = spec.corners()
+        region = df.Region(p1=p1, p2=p2, dims=np.array(spec.dim_names),
+                           units=np.array(spec.units if spec.units is not None else ["m"] * spec.nd),
+                           tolerance_factor=tol)
     nlist = [int(k) for k in spec.n]
     try:
         mesh = df.Mesh(region=region, n=nlist, bc=bc, subregions=regions)
@@ -282,21 +300,31 @@ def random_field(ctx, tmp):
         boxes, regions = {}, {}
         mesh = df.Mesh(region=region, n=nlist, bc=bc)
     nvdim = int(gen.pick(rng, [1, 1, 2, 3, 3, 4, 5]))
-    dtype = gen.pick(rng, ["float", "float", "complex", "int"])
+    dtype = gen.pick(rng, ["float", "float", "complex", "int", "int32", "bigint", "bool",
+                           "float32", "complex64"])
     arr = _values(rng, (*nlist, nvdim), dtype)
     labels = ig.rand_labels(rng, nvdim)
     if nvdim == 1 and rng.random() < 0.3:  # a one-component field may carry a label too
         labels = [gen.pick(rng, ["s", "rho", "m_s", "T1"])]
+    kwl = {}
+    given = labels
+    if labels is not None and rng.random() < 0.25:
+        given = np.array(labels)  # labels as numpy strings (what from_xarray hands over)
+    elif nvdim > 1 and labels is None and rng.random() < 0.3:
+        # a vector field without labels (vdims=[]); it cannot have a mapping either
+        given = []
+        kwl["vdim_mapping"] = {}
     unit = gen.pick(rng, ig.UNITS)
     valid = gen.rand_valid(rng, nlist)
-    f = gen.via_history(None, df.Field(mesh, nvdim=nvdim, value=arr, vdims=labels, unit=unit, valid=valid.copy(),
-                 dtype=arr.dtype))
+    f = gen.via_history(None, df.Field(mesh, nvdim=nvdim, value=arr, vdims=given, unit=unit,
+                                       valid=valid.copy(), dtype=arr.dtype, **kwl))
+    unlabelled = isinstance(given, list) and len(given) == 0
     typing = ("int" if spec.int_corners else "float") + "_region_" + (
         "none" if not boxes else "float_sub")
     exp = {
         "spec": spec, "arr": arr, "valid": valid, "tol": tol, "bc": bc,
         "units": list(spec.units) if spec.units is not None else ["m"] * spec.nd,
-        "labels": ig.expected_labels(nvdim, labels), "unit": unit,
+        "labels": None if unlabelled else ig.expected_labels(nvdim, labels), "unit": unit,
         # what the mesh held before writing (value-identical to lattice vertices)
         "subs": {k: (np.array(v.pmin), np.array(v.pmax)) for k, v in mesh.subregions.items()},
     }
